@@ -17,6 +17,8 @@ from collections import Counter
 import numpy as np
 
 from ..catalog import OPS, cases
+import itertools
+
 from ..common import Problem
 from ..runcase import as_tuple, compare, np_inputs, reference
 from ..sweep import sweep
@@ -25,8 +27,11 @@ PROPERTY = "C19"
 LEVEL = "exploration"
 
 VARIANTS = ["global-default", "explicit-equal", "other-work_dir", "store-object", "compressor-none", "compressor-codec",
-            "reserved_mem", "executor-threads", "larger-allowed_mem", "large-reserve-same-usable"]
+            "reserved_mem", "executor-threads", "larger-allowed_mem", "large-reserve-same-usable", "separate-equal-specs", "default-config-reloaded"]
+# variants that give every input array its own Spec object / config context (catalogue cases only)
+PER_INPUT = ("separate-equal-specs", "default-config-reloaded")
 ALLOWED = 4_000_000
+_TICK = itertools.count(1)
 
 
 def variant_spec(v, dirs, ALLOWED=ALLOWED):
@@ -35,7 +40,7 @@ def variant_spec(v, dirs, ALLOWED=ALLOWED):
     from zarr.storage import MemoryStore
 
     base = dict(work_dir=dirs[0], allowed_mem=ALLOWED, reserved_mem=0, executor_name="single-threaded")
-    if v == "global-default":
+    if v in ("global-default", "default-config-reloaded"):
         return None, {"spec.work_dir": dirs[0], "spec.allowed_mem": ALLOWED, "spec.reserved_mem": 0, "spec.executor_name": "single-threaded"}
     kw = dict(base)
     if v == "other-work_dir":
@@ -69,7 +74,15 @@ def run_variant(build, v, dirs, allowed=ALLOWED):
     cm = cubed.config.set(cfg) if cfg else contextlib.nullcontext()
     with cm:
         try:
-            outs = build(spec)
+            if v == "separate-equal-specs":
+                # every input lives under its own Spec object with equal settings, and the first input has already been
+                # computed on its own (equal settings are what counts, not object identity or what a Spec has been used for)
+                outs = build(lambda k: variant_spec("explicit-equal", dirs, allowed)[0], warm=True)
+            elif v == "default-config-reloaded":
+                # default configuration; between creating the inputs an unrelated configuration key is set and the first input is computed
+                outs = build(lambda k: None, warm=True, between=lambda: cubed.config.set({"vkit.unrelated": next(_TICK)}))
+            else:
+                outs = build(lambda k: spec)
         except Exception as e:
             return ("BUILD", type(e).__name__, str(e)[:150])
         try:
@@ -109,7 +122,8 @@ def eval_case(case, seed, tier):
             from ..programs import Builder
             from ..tstore import World
 
-            def build(spec):
+            def build(spec_for, warm=False, between=None):
+                spec = spec_for(0)
                 w = World()
                 try:
                     b = Builder(spec, w, seed)
@@ -121,18 +135,26 @@ def eval_case(case, seed, tier):
             op = OPS[case["op"]]
             ns = np_inputs(case, seed)
 
-            def build(spec):
-                xs = [xp.asarray(a, chunks=tuple(i["chunks"]), spec=spec) for i, a in zip(case["inputs"], ns)]
+            def build(spec_for, warm=False, between=None):
+                xs = []
+                for k, (i, a) in enumerate(zip(case["inputs"], ns)):
+                    xs.append(xp.asarray(a, chunks=tuple(i["chunks"]), spec=spec_for(k)))
+                    if k == 0 and warm:
+                        if between is not None:
+                            between()
+                        xs[0].compute()
                 if getattr(op, "special", False):
                     return (xs[0],)
                 if getattr(op, "needs_spec", False):
-                    return as_tuple(op.build(xs, case["params"], spec=spec))
+                    return as_tuple(op.build(xs, case["params"], spec=spec_for(len(xs))))
                 return as_tuple(op.build(xs, case["params"]))
             desc = f"{case['op']} {case['params']} inputs={[(i['shape'], i['chunks']) for i in case['inputs']]}"
         if case.get("op") != "program" and (OPS[case["op"]].nondet or case["params"].get("fn") in ("empty", "empty_like")):
             return cnt, probs  # no defined values to compare
         results = {}
         for v in VARIANTS:
+            if v in PER_INPUT and (case.get("op") == "program" or len(case["inputs"]) < 2):
+                continue
             results[v] = run_variant(build, v, dirs, case.get("_allowed", ALLOWED))
             cnt["evaluations"] += 1
         cnt["cases"] += 1
@@ -163,6 +185,11 @@ def pick_cases(tier):
         if seen[key] < per and multi:
             seen[key] += 1
             out.append(c)
+        # zero-size operands chunked differently from each other (aligned through a rechunk that moves no data)
+        zkey = ("zero-size",) + key
+        if len(c["inputs"]) >= 2 and any(0 in i["shape"] for i in c["inputs"]) and len({tuple(i["chunks"]) for i in c["inputs"]}) > 1 and seen[zkey] < per:
+            seen[zkey] += 1
+            out.append(c)
     # operations whose plan depends on the memory budget, on an array larger than the per-task budget
     from ..catalog import inp
     out.append(dict(op="rechunk", inputs=[inp((300, 300), (300, 10))], params=dict(chunks=[10, 300]), _allowed=1_000_000))
@@ -183,6 +210,6 @@ def run(ctx):
     ctx.set("variants", VARIANTS)
     ctx.set("catalogue_cases", len(cs))
     ctx.set("program_cases", len(pc))
-    ctx.set("rule", "case x 10 configuration variants; distinct_nontrivial = cases accepted and computed under the reference variant (all nine outcomes compared)")
+    ctx.set("rule", "case x 12 configuration variants (the two per-input variants only for catalogue cases with >= 2 inputs); distinct_nontrivial = cases accepted and computed under the reference variant (all nine outcomes compared)")
     ctx.sample(dict(case=cs[0], variants=VARIANTS))
     ctx.assumptions += ["allowed_mem (4 MB) suffices for every plan of the enumerated cases", "random arrays are excluded (no fixed values)"]
